@@ -2,10 +2,17 @@
    core/executors/periodicalexecutor.go (+ bulk/chunk containers): clients calling
    Add/Flush/Wait, flusher goroutines, ticks, clock, panicking callbacks; a schedule
    is any [list ev] (events that are not enabled are skipped).  All theorems quantify
-   over every configuration (threshold, interval, panicking tasks), every number of
-   clients and every schedule. *)
+   over every configuration (threshold, interval, panicking tasks, container), every number
+   of clients and every schedule.
+
+   The container enters through [runs cfg h]: does executeTasks hand the batch that holds the
+   tasks h to Execute?  For a container that renders h as the Go value [sh h] that is
+   [has_tasks (sh h)] (Model.has_tasks = hasTasks: nil -> no; array/chan/map/slice -> Len() > 0;
+   any other kind -> yes).  [faithful cfg]: a batch that is not executed holds no task.
+   [faithful_iff_honest] says which containers that covers, [contract_is_necessary] that no
+   theorem below survives without it. *)
 From Coq Require Import List ZArith Bool Permutation.
-From GZ Require Import C11.Model C11.ProofsA C11.Proofs C11.ProofsB.
+From GZ Require Import C11.Model C11.ProofsA C11.Proofs C11.ProofsB C11.Containers C11.ProofsC.
 Import ListNotations.
 Open Scope Z_scope.
 
@@ -13,27 +20,27 @@ Open Scope Z_scope.
    (as a multiset) the tasks passed to callbacks that returned or panicked, plus the
    tasks still in the container, in the commander channel, in a producer's hand or in
    a flusher's / Flush caller's hand.  Nothing is lost, nothing is duplicated. *)
-Theorem exactly_once : forall cfg n sched,
+Theorem exactly_once : forall cfg n sched, faithful cfg ->
   let s := run cfg (init n) sched in
   Permutation (accepted s) (done_tasks s ++ places s).
-Proof. intros. apply (conservation_perm cfg), run_inv. Qed.
+Proof. intros cfg n sched Hf. apply (conservation_perm cfg), run_inv, Hf. Qed.
 Print Assumptions exactly_once.
 
 (* ... hence with distinct tasks no task is ever passed to a callback twice, nor is
    it executed while still pending somewhere *)
-Theorem exactly_once_no_duplicates : forall cfg n sched,
+Theorem exactly_once_no_duplicates : forall cfg n sched, faithful cfg ->
   let s := run cfg (init n) sched in
   NoDup (accepted s) -> NoDup (done_tasks s ++ places s).
 Proof.
-  intros cfg n sched s H. eapply Permutation_NoDup; [|exact H].
-  apply (conservation_perm cfg), run_inv.
+  intros cfg n sched Hf s H. eapply Permutation_NoDup; [|exact H].
+  apply (conservation_perm cfg), run_inv, Hf.
 Qed.
 Print Assumptions exactly_once_no_duplicates.
 
 (* When a Wait returns and nobody was adding (no client inside Add when the Wait
    started, no Add started meanwhile), every place but "executed" is empty: every
    accepted task has been passed to a callback exactly once. *)
-Theorem exactly_once_after_wait : forall cfg n pre w mid,
+Theorem exactly_once_after_wait : forall cfg n pre w mid, faithful cfg ->
   let s0 := run cfg (init n) pre in
   let s1 := run cfg s0 (EvCall w CWait :: mid) in
   nth_error (cl s0) w = Some CIdle ->
@@ -50,7 +57,7 @@ Print Assumptions exactly_once_after_wait.
    be taken over and no producer waits for a confirmation (so the next Add, which
    restarts the flusher, finds a consistent protocol state).  Together with
    [exactly_once] (which holds across quits and restarts). *)
-Theorem restart_safe : forall cfg n sched,
+Theorem restart_safe : forall cfg n sched, faithful cfg ->
   let s := run cfg (init n) sched in
   (cont s <> [] ->
      guarded s = true \/
@@ -87,7 +94,7 @@ Print Assumptions panic_loses_own_batch_only.
    meanwhile (concurrent Adds, Flushes, Waits, ticks, flusher quitting and restarting).
    For the protocol before the fix of F6 this is false: Pinned.wait_covers_prior_adds_refuted,
    Pinned.wait_start_hypothesis_insufficient. *)
-Theorem wait_covers_prior_adds : forall cfg n pre w mid,
+Theorem wait_covers_prior_adds : forall cfg n pre w mid, faithful cfg ->
   let s0 := run cfg (init n) pre in
   let s1 := run cfg s0 (EvCall w CWait :: mid) in
   nth_error (cl s0) w = Some CIdle ->
@@ -97,7 +104,7 @@ Theorem wait_covers_prior_adds : forall cfg n pre w mid,
 Proof. exact wait_covers_in. Qed.
 Print Assumptions wait_covers_prior_adds.
 
-Theorem wait_covers_prior_adds_with_multiplicity : forall cfg n pre w mid,
+Theorem wait_covers_prior_adds_with_multiplicity : forall cfg n pre w mid, faithful cfg ->
   let s0 := run cfg (init n) pre in
   let s1 := run cfg s0 (EvCall w CWait :: mid) in
   nth_error (cl s0) w = Some CIdle ->
@@ -114,7 +121,7 @@ Print Assumptions wait_covers_prior_adds_with_multiplicity.
    it earlier (a producer that reached the threshold, the flusher, another Flush/Wait caller).
    No hypothesis on what the other threads do meanwhile.  (That the Flush need not wait for those
    other hands is the difference between Flush and Wait: [ex_flush_leaves_other_hands].) *)
-Theorem flush_covers_prior_adds : forall cfg n pre w mid,
+Theorem flush_covers_prior_adds : forall cfg n pre w mid, faithful cfg ->
   let s0 := run cfg (init n) pre in
   let s1 := run cfg s0 (EvCall w CFlush :: mid) in
   nth_error (cl s0) w = Some CIdle ->
@@ -125,7 +132,7 @@ Proof. exact flush_covers_l. Qed.
 Print Assumptions flush_covers_prior_adds.
 
 (* ... with distinct tasks: none of them is still in the container *)
-Theorem flush_leaves_no_prior_task_in_container : forall cfg n pre w mid,
+Theorem flush_leaves_no_prior_task_in_container : forall cfg n pre w mid, faithful cfg ->
   let s0 := run cfg (init n) pre in
   let s1 := run cfg s0 (EvCall w CFlush :: mid) in
   nth_error (cl s0) w = Some CIdle ->
@@ -158,8 +165,68 @@ Theorem batches_partition_added_tasks : forall gr ops,
 Proof. exact buf_contents_l. Qed.
 Print Assumptions batches_partition_added_tasks.
 
+
+(* ---- the container ---------------------------------------------------------------- *)
+
+(* Which containers are covered: exactly those that keep what hasTasks asks for - a batch that
+   holds tasks is not the untyped nil and, if it is an array / chan / map / slice, is not empty.
+   Nothing is asked of batches of any other kind: they are ALWAYS executed, be they the zero
+   value of their type ([unknown_kinds_always_run]; an offset range {0,0}, a gauge set to 0, a
+   flag set to false ...). *)
+Theorem faithful_iff_honest : forall mw iv bd sh,
+  faithful (container_cfg mw iv bd sh) <-> honest sh.
+Proof. exact ProofsC.faithful_iff_honest. Qed.
+Print Assumptions faithful_iff_honest.
+
+Theorem unknown_kinds_always_run : forall v,
+  bv_kind v <> KNil -> is_coll (bv_kind v) = false -> has_tasks v = true.
+Proof. exact ProofsC.unknown_kinds_always_run. Qed.
+Print Assumptions unknown_kinds_always_run.
+
+(* [exactly_once] for a PeriodicalExecutor over any such container, whatever the kind of its
+   batches and whether or not they are zero values *)
+Theorem exactly_once_for_every_honest_container : forall mw iv bd sh n sched, honest sh ->
+  let s := run (container_cfg mw iv bd sh) (init n) sched in
+  Permutation (accepted s) (done_tasks s ++ places s).
+Proof. intros mw iv bd sh n sched H. apply exactly_once, ProofsC.faithful_iff_honest, H. Qed.
+Print Assumptions exactly_once_for_every_honest_container.
+
+(* the Bulk / Chunk executors and the sqlx bulk inserter: slices, nil when nothing was added *)
+Theorem slice_containers_faithful : forall mw iv bd,
+  faithful (container_cfg mw iv bd slice_shape) /\ (forall h, has_tasks (slice_shape h) = nonempty h).
+Proof. intros. split; [apply ProofsC.faithful_iff_honest, slice_honest | exact slice_runs]. Qed.
+Print Assumptions slice_containers_faithful.
+
+(* every container of the family the correspondence run drives the executor with
+   (Containers.shape_of: 11 batch types x 3 renderings of "nothing added"); seven of the types
+   hand out their zero value for the batch that holds only task 0 *)
+Theorem checked_containers_faithful : forall mw iv bd k e,
+  faithful (container_cfg mw iv bd (shape_of k e)).
+Proof. exact family_faithful. Qed.
+Print Assumptions checked_containers_faithful.
+
+Theorem checked_containers_have_zero_batches :
+  forall k, In k [SStruct; SInt; SString; SBool; SPtr; SIface; SArray] ->
+  forall e, bv_zero (shape_of k e [0]) = true /\ has_tasks (shape_of k e [0]) = true.
+Proof. exact family_has_zero_batches. Qed.
+Print Assumptions checked_containers_have_zero_batches.
+
+(* The hypothesis cannot be weakened: if executeTasks skips ONE batch h that holds tasks, then on
+   the schedule "one client adds the tasks of h (weight 0) and calls Flush" every call has
+   returned, the tasks of h were accepted, none was passed to a callback and none is pending
+   anywhere: [exactly_once] fails.  (The seeded hasTasks of C11-9 - default branch !IsZero - is
+   such a decision for every zero-valued batch of an unknown kind:
+   Pinned.iszero_variant_refuted, Pinned.iszero_variant_loses_every_zero_batch.) *)
+Theorem contract_is_necessary : forall cfg h,
+  0 < maxw cfg -> h <> [] -> runs cfg h = false ->
+  let s := run cfg (init 1) (adds0 h ++ flush0) in
+  cl s = [CIdle] /\ accepted s = h /\ done_tasks s = [] /\ places s = [] /\
+  ~ Permutation (accepted s) (done_tasks s ++ places s).
+Proof. exact unfaithful_loses_tasks_l. Qed.
+Print Assumptions contract_is_necessary.
+
 (* ---- non-vacuity: concrete schedules meeting the hypotheses ---- *)
-Definition ex_cfg : config := mkCfg 2 1000 [].
+Definition ex_cfg : config := mkCfg 2 1000 [] nonempty.
 (* Add 1 (starts the flusher), Add 2 reaches the threshold and is handed over and
    confirmed, flusher parked before the callback; Add 3 stays in the container *)
 Definition ex_pre : list ev :=
@@ -182,7 +249,7 @@ Proof. vm_compute. repeat split; reflexivity. Qed.
 
 (* the same schedule when task 2 makes its callback panic: same core state, [1;2] lost, [3] executed *)
 Example ex_panic :
-  let cfgp := mkCfg 2 1000 [2] in
+  let cfgp := mkCfg 2 1000 [2] nonempty in
   let s := run cfgp (init 2) (ex_pre ++ EvCall 1 CWait :: ex_mid) in
   let s0 := run (no_panic cfgp) (init 2) (ex_pre ++ EvCall 1 CWait :: ex_mid) in
   executed s = [[3]] /\ lost s = [[1; 2]] /\ executed s0 = [[3]; [1; 2]] /\ core s = core s0.
@@ -231,3 +298,17 @@ Example ex_buffers :
   b_out st2 = [mkSl 0 2; mkSl 1 2] /\ b_heap st2 = [[1; 2; 0]; [3; 4; 0]; [5; 0; 0]] /\
   map (view (b_heap st2)) (b_out st2) = [[1; 2]; [3; 4]] /\ cur_view st2 = [5].
 Proof. vm_compute. repeat split; reflexivity. Qed.
+
+(* a container whose batches are structs, {0, nil} for the batch that holds only task 0: the zero
+   value is executed (Wait; threshold 1; periodic flush), the idle value {-1, nil} as well (it is of
+   an unknown kind too: Flush answers true although nothing was added, which is why the flusher of
+   such an executor never goes idle - outside C11's statement) *)
+Example ex_zero_valued_batch :
+  let cfg := container_cfg 100 1000 [] (shape_of SStruct EMark) in
+  faithful cfg /\ bv_zero (shape_of SStruct EMark [0]) = true /\
+  let s := run cfg (init 1)
+             [EvCall 0 (CAdd 0 0); EvC 0; EvCall 0 CWait; EvC 0; EvC 0; EvC 0; EvC 0; EvC 0; EvC 0; EvC 0] in
+  cl s = [CIdle] /\ accepted s = [0] /\ executed s = [[0]] /\ places s = [] /\
+  let s' := run cfg s [EvCall 0 CFlush; EvC 0; EvC 0; EvC 0; EvC 0] in
+  cl s' = [CIdle] /\ executed s' = [[0]; []].
+Proof. split; [apply family_faithful|]. vm_compute. repeat split; reflexivity. Qed.
